@@ -1,4 +1,4 @@
-from numpy import dot, zeros, ones, ndarray
+from numpy import dot, zeros, ones, ndarray, asarray
 from abc import ABC, abstractmethod
 
 
@@ -50,6 +50,7 @@ class ConstantMean(MeanFunction):
         self.n_data = x.shape[0]
 
     def estimate_hyperpar_bounds(self, y: ndarray):
+        y = asarray(y, dtype=float)
         w = y.max() - y.min()
         self.bounds = [(y.min() - w, y.max() + w)]
 
@@ -71,6 +72,7 @@ class LinearMean(MeanFunction):
         self.bounds = hyperpar_bounds
 
     def pass_spatial_data(self, x: ndarray):
+        x = asarray(x, dtype=float)
         self.x_mean = x.mean(axis=0)
         self.dx = x - self.x_mean[None, :]
         self.n_data = x.shape[0]
@@ -81,6 +83,7 @@ class LinearMean(MeanFunction):
         )
 
     def estimate_hyperpar_bounds(self, y: ndarray):
+        y = asarray(y, dtype=float)
         w = y.max() - y.min()
         grad_bounds = 10 * w / (self.dx.max(axis=0) - self.dx.min(axis=0))
         self.bounds = [(y.min() - 2 * w, y.max() + 2 * w)]
@@ -107,6 +110,7 @@ class QuadraticMean(MeanFunction):
 
     def pass_spatial_data(self, x: ndarray):
         n = x.shape[1]
+        x = asarray(x, dtype=float)
         self.x_mean = x.mean(axis=0)
         self.dx = x - self.x_mean[None, :]
         self.dx_sqr = self.dx**2
@@ -120,6 +124,7 @@ class QuadraticMean(MeanFunction):
         self.quad_slc = slice(n + 1, 2 * n + 1)
 
     def estimate_hyperpar_bounds(self, y: ndarray):
+        y = asarray(y, dtype=float)
         w = y.max() - y.min()
         grad_bounds = 10 * w / (self.dx.max(axis=0) - self.dx.min(axis=0))
         self.bounds = [(y.min() - 2 * w, y.max() + 2 * w)]
